@@ -16,6 +16,8 @@ def dec(x):
     if isinstance(x, dict):
         if "complex" in x:
             return complex(*x["complex"])
+        if "float" in x:
+            return float(x["float"])  # "nan", "inf": not representable as JSON numbers
         if "ndarray" in x:
             return np.array([dec(i) for i in x["ndarray"]], dtype=x.get("dtype"))
         if "tuple" in x:
